@@ -84,7 +84,7 @@ def _j1_params(ks):
     return out
 
 
-@obligation('J1', props=('C08', 'C11', 'C06'), quick=_j1_params(((1, 70000), (2, 5000))), thorough=_j1_params(((1, 300000), (2, 20000), (3, 2500))),
+@obligation('J1', props=('C08', 'C11', 'C06'), quick=_j1_params(((1, 70000), (2, 5000))), thorough=_j1_params(((1, 300000), (2, 20000), (3, 900))) + [dict(k=3, first=f, size_hi=2500) for f in range(1, len(OPS))],
             stubs=_STUBS,
             bounds='operation sequences of length <=4 (append of 0..20000 bytes = up to ~19x the 1 KiB file, drop tail, drop head, clear, commit-index update, close+reopen) after 1 pre-existing record; sizes and terms symbolic')
 def J1(inp, k, first=None, size_hi=SIZE_HI):
